@@ -46,14 +46,40 @@ def diff_keys(a, b):
 class Check(PropertyCheck):
     prop = "C02"
     design_ref = "§5 C02"
-    level_text = "TODO"
-    level_note = "TODO"
+    level_text = ("Lean theorems about the model of Http1Connection's read side (state = phase x unparsed buffer; head extraction "
+                  "with h11 maybe_extract_lines and the blank-line loop of the fixed read_headers, framing decision as a parameter, "
+                  "ContentLengthReader and Http10Reader body phases, wait until the flow is done, release = mark_done re-dispatch): "
+                  "machine_lawful (feed (a++b) = feed a then feed b, outputs concatenated) for ALL states and byte strings, hence "
+                  "h1_seg_independent for ALL streams and ALL segmentations; wait_buffers + pipelined_in_order (bytes arriving before "
+                  "or after the previous flow is released give the same next request); old_machine_counterexample shows the pre-fix "
+                  "machine violates the law on the F-C02a witness. The real HttpLayer is checked directly with no model in between: "
+                  "for generated exchanges (1-3 pipelined requests, scripted origin responses, addon edits) the outcome of a schedule "
+                  "(segmentation of both streams + interleaving respecting causality) must equal the outcome of whole-stream delivery: "
+                  "flows, hook sequence per flow, reference-parsed messages per connection, closes.")
+    level_note = ("PARTIAL in Lean: the Lawful proof covers heads, Content-Length bodies and read-until-close bodies; the h11 "
+                  "ChunkedReader sub-states are not in the proved machine (chunked framing is covered only by the direct oracle on the "
+                  "real layer), the server-side reader (Http1Client) is the same machine with the response head parser but is not "
+                  "instantiated separately, and the interleaving of the two connections is proved only in the form wait_buffers / "
+                  "pipelined_in_order (client bytes commute with the release of the previous flow). No compiled-model tie for C02 "
+                  "(has_model=False): the functions the machine uses (extractLines, head parsing, framing decision) are tied in C01. "
+                  "Out of scope by design: tunnel payload after CONNECT, request streaming (head forwarded before the body is judged), "
+                  "an origin that drops a keep-alive connection without announcing it (races with the next request).")
     technique = "Lean 4 proof (feed_append for the drain loop + generic seg_independent) + schedule-vs-whole oracle on the real layer"
-    rule = "TODO"
-    budget = {"quick": 1500, "thorough": 60000}
-    time_budget = {"quick": 35, "thorough": 600}
-    fingerprints = []
-    trusted_base = []
+    rule = ("every split point (client side and server side) and the all-one-byte schedule of three fixed exchanges (leading CRLF, "
+            "chunked + pipelining, bare-LF head + read-until-close), then generated exchanges of C01's grammar x schedules: one cut, "
+            "k random cuts, all-one-byte; x random client/server interleavings. distinct = distinct (exchange, schedule); "
+            "non-trivial = at least one segment boundary.")
+    budget = {"quick": 700, "thorough": 60000}
+    time_budget = {"quick": 12, "thorough": 480}
+    fingerprints = ["mitmproxy.proxy.layers.http._http1:Http1Connection._handle_event", "mitmproxy.proxy.layers.http._http1:Http1Connection.read_body",
+                    "mitmproxy.proxy.layers.http._http1:Http1Connection.wait", "mitmproxy.proxy.layers.http._http1:Http1Connection.mark_done",
+                    "mitmproxy.proxy.layers.http._http1:Http1Connection.make_pipe",
+                    "mitmproxy.proxy.layers.http._http1:Http1Server.read_headers", "mitmproxy.proxy.layers.http._http1:Http1Server.mark_done",
+                    "mitmproxy.proxy.layers.http._http1:Http1Client.read_headers", "mitmproxy.proxy.layers.http._http1:make_body_reader",
+                    "mitmproxy.proxy.utils:ReceiveBuffer"]
+    trusted_base = ["h11 ReceiveBuffer / ContentLengthReader / Http10Reader as transcribed in Model/C02.lean; h11 ChunkedReader not modelled",
+                    "harness/common/world.py as the stand-in for proxy/server.py (validated separately against the asyncio server)",
+                    "harness/common/refparsers.py for comparing what the peers receive semantically"]
     parallel = True
     has_model = False
 
@@ -133,6 +159,7 @@ class Check(PropertyCheck):
         return "F-C02b"
 
     def classify(self, case, obs):
+        if not obs["nseg"]: return None
         return json.dumps([case["mode"], case["client_hex"], case.get("ccuts"), case.get("scuts"), case.get("sched")])
 
     def branches(self, case, obs):
